@@ -12,6 +12,12 @@ use serde_json::{json, Value};
 
 use crate::proj::*;
 
+/// The library's small string: public only with the smartstring feature, otherwise `String`.
+#[cfg(feature = "ss")]
+pub type SmallStr = purl::SmallString;
+#[cfg(not(feature = "ss"))]
+pub type SmallStr = String;
+
 pub struct Ctx {
     pub line: usize,
     pub case: Value,
@@ -22,6 +28,8 @@ pub struct Ctx {
     pub transcript: Option<std::io::BufWriter<std::fs::File>>,
     pub max_fail_lines: u64,
     pub samples: Vec<Value>,
+    pub serde: bool,
+    pub pool: Vec<Value>,
 }
 
 impl Ctx {
@@ -36,6 +44,8 @@ impl Ctx {
             transcript: None,
             max_fail_lines: 40,
             samples: Vec::new(),
+            serde: false,
+            pool: Vec::new(),
         }
     }
 
@@ -140,7 +150,7 @@ where
     if let Some(text) = p.qualifiers().get("checksum") {
         let typed = p.qualifiers().try_get_typed::<purl::qualifiers::well_known::Checksum>();
         let again = match typed {
-            Ok(Some(ck)) => purl::SmallString::try_from(ck).ok().map(|s| s.to_string()),
+            Ok(Some(ck)) => SmallStr::try_from(ck).ok().map(|s| s.to_string()),
             _ => None,
         };
         ctx.check("C12", "typed accessor re-serialises to the PURL's checksum text", inst, again.as_deref() == Some(text), &json!(text), &json!(again));
@@ -148,6 +158,22 @@ where
     // accessors never report an empty string
     let acc_ok = p.namespace() != Some("") && p.version() != Some("") && p.subpath() != Some("");
     ctx.check("C04", "optional accessors never Some(\"\")", inst, acc_ok, &null, obs);
+    // C16: the serde form of every value is its canonical string
+    #[cfg(feature = "sd")]
+    if ctx.serde {
+        if let Some(c) = display(p) {
+            let ser = catch_unwind(AssertUnwindSafe(|| serde_json::to_string(p)));
+            let want = serde_json::to_string(&c).expect("json string");
+            match ser {
+                Ok(Ok(text)) => {
+                    ctx.check("C16", "serialize is exactly the canonical string", inst, text == want, &json!(want), &json!(text));
+                },
+                _ => {
+                    ctx.check("C16", "serialize succeeds", inst, false, &json!(want), &Value::Null);
+                },
+            }
+        }
+    }
     // C19 reflexive laws on a clone
     let q = p.clone();
     ctx.check("C19", "clone is equal, hashes alike, compares Equal", inst,
@@ -311,6 +337,17 @@ pub fn run_parse(ctx: &mut Ctx, case: &Value, opts: &Opts) {
         serde_checks::<String>(ctx, "String", &s, &g);
     }
     let _ = opts;
+    if ctx.transcript.is_some() {
+        // C17: observable result of the type-agnostic API incl. the error text
+        let text = match GenericPurl::<String>::from_str(&s) {
+            Ok(_) => String::new(),
+            Err(e) => e.to_string(),
+        };
+        let line = json!({"i": ctx.line, "k": "parse", "o": g, "text": text});
+        if let Some(f) = ctx.transcript.as_mut() {
+            writeln!(f, "{}", line).expect("write transcript");
+        }
+    }
     if ctx.samples.len() < 3 && g["ok"] == json!(true) {
         ctx.samples.push(json!({"kind": "parse", "input": s, "judgement": case["gj"]["j"], "observed": g}));
     }
@@ -391,6 +428,12 @@ pub fn run_build(ctx: &mut Ctx, case: &Value) {
         let (g, p) = build_inst::<String>(ctx, "String", st.clone(), case);
         if let Some(p) = &p {
             universal(ctx, "String", p, &g, &[exp_v], "build");
+        }
+        if ctx.transcript.is_some() {
+            let line = json!({"i": ctx.line, "k": "build", "o": g});
+            if let Some(f) = ctx.transcript.as_mut() {
+                writeln!(f, "{}", line).expect("write transcript");
+            }
         }
         parse_back::<String>(ctx, "String", &g, case);
         {
@@ -1028,7 +1071,7 @@ pub fn apply_ckop(ck: &mut purl::qualifiers::well_known::Checksum<'static>, op: 
             Ok(Some(b)) => json!({"ok": true, "some": true, "bytes": b}),
         },
         "entries" => json!({"entries": ck_entries(ck)}),
-        "to_text" => match purl::SmallString::try_from(ck.clone()) {
+        "to_text" => match SmallStr::try_from(ck.clone()) {
             Ok(s) => json!({"ok": true, "s": cps(&s)}),
             Err(e) => json!({"ok": false, "err": e.err_name()}),
         },
@@ -1137,6 +1180,105 @@ pub fn run_shape(ctx: &mut Ctx, case: &Value) {
     }
 }
 
+// --------------------------------------------------------------------------- pairs of values (C19)
+
+fn value_to_purl<T>(t: T, v: &Value) -> Option<GenericPurl<T>>
+where
+    T: PurlShape,
+    <T as PurlShape>::Error: From<purl::ParseError>,
+{
+    make_builder(t, v).ok().and_then(|b| b.build().ok())
+}
+
+fn pair_inst<T>(ctx: &mut Ctx, inst: &str, ta: T, tb: T, case: &Value)
+where
+    T: PurlShape + Clone + PartialEq + Eq + Hash + Ord,
+    <T as PurlShape>::Error: From<purl::ParseError>,
+{
+    use std::cmp::Ordering;
+    let (Some(a), Some(b)) = (value_to_purl(ta, &case["a"]), value_to_purl(tb, &case["b"])) else {
+        ctx.check("C19", "values of the universe can be built", inst, false, &Value::Null, &Value::Null);
+        return;
+    };
+    let (Some(sa), Some(sb)) = (display(&a), display(&b)) else { return };
+    let eq = a == b;
+    let obs = json!({"eq": eq, "str_eq": sa == sb, "hash_eq": hash_of(&a) == hash_of(&b),
+                     "cmp_ab": format!("{:?}", a.cmp(&b)), "cmp_ba": format!("{:?}", b.cmp(&a)), "sa": sa, "sb": sb});
+    ctx.check("C19", "equal exactly when the specification's values are equal", inst, json!(eq) == case["eq"], &case["eq"], &obs);
+    ctx.check("C19", "equal exactly when the canonical strings are equal", inst, eq == (sa == sb), &case["eq"], &obs);
+    ctx.check("C19", "equal values hash alike", inst, !eq || hash_of(&a) == hash_of(&b), &Value::Null, &obs);
+    ctx.check("C19", "cmp is Equal exactly on equal values", inst, (a.cmp(&b) == Ordering::Equal) == eq, &Value::Null, &obs);
+    ctx.check("C19", "cmp is antisymmetric", inst, a.cmp(&b) == b.cmp(&a).reverse(), &Value::Null, &obs);
+    ctx.check("C19", "partial_cmp agrees with cmp", inst, a.partial_cmp(&b) == Some(a.cmp(&b)), &Value::Null, &obs);
+    let (qa, qb) = (a.qualifiers(), b.qualifiers());
+    let qeq = qa == qb;
+    ctx.check("C19", "Qualifiers: ==, hash, cmp agree", inst,
+              (!qeq || hash_of(qa) == hash_of(qb)) && ((qa.cmp(qb) == Ordering::Equal) == qeq) && qa.cmp(qb) == qb.cmp(qa).reverse(),
+              &Value::Null, &obs);
+}
+
+pub fn run_pair(ctx: &mut Ctx, case: &Value) {
+    let ta = from_cps(&case["a"]["type"]);
+    let tb = from_cps(&case["b"]["type"]);
+    pair_inst::<String>(ctx, "String", ta.clone(), tb.clone(), case);
+    pair_inst::<std::borrow::Cow<str>>(ctx, "Cow", std::borrow::Cow::Borrowed(&ta), std::borrow::Cow::Owned(tb.clone()), case);
+    #[cfg(feature = "ss")]
+    pair_inst::<purl::SmallString>(ctx, "SmallString", ta.as_str().into(), tb.as_str().into(), case);
+    // transitivity: keep the distinct values and check a sorted pool at the end
+    if case["a"] == case["b"] && !ctx.pool.contains(&case["a"]) {
+        ctx.pool.push(case["a"].clone());
+    }
+    if ctx.samples.len() < 2 {
+        ctx.samples.push(json!({"kind": "pair of values", "case": case}));
+    }
+}
+
+/// After all pairs: sort the pool with Ord and require the result to be pairwise consistent
+/// (for a total antisymmetric relation this is transitivity on the pool).
+pub fn finish_pool(ctx: &mut Ctx) {
+    use std::cmp::Ordering;
+    let pool = std::mem::take(&mut ctx.pool);
+    let mut vals: Vec<GenericPurl<String>> =
+        pool.iter().filter_map(|v| value_to_purl(from_cps(&v["type"]), v)).collect();
+    if vals.len() < 2 {
+        return;
+    }
+    vals.sort();
+    let mut ok = true;
+    for i in 0..vals.len() {
+        for j in i + 1..vals.len() {
+            if vals[i].cmp(&vals[j]) == Ordering::Greater {
+                ok = false;
+            }
+        }
+    }
+    ctx.case = json!({"k": "pool", "size": vals.len()});
+    ctx.check("C19", "sorted pool is pairwise consistent (transitivity)", "String", ok, &Value::Null, &Value::Null);
+    let set: std::collections::BTreeSet<_> = vals.iter().cloned().collect();
+    let hset: std::collections::HashSet<_> = vals.iter().cloned().collect();
+    let strs: std::collections::HashSet<String> = vals.iter().map(|p| p.to_string()).collect();
+    ctx.check("C19", "de-duplication by BTreeSet, HashSet and string agree", "String",
+              set.len() == hset.len() && set.len() == strs.len(), &json!(strs.len()), &json!([set.len(), hset.len()]));
+}
+
+/// C16: values that are not strings are refused.
+#[cfg(feature = "sd")]
+pub fn run_serde_ns(ctx: &mut Ctx, case: &Value) {
+    if !ctx.serde {
+        return;
+    }
+    for t in case["texts"].as_array().cloned().unwrap_or_default() {
+        let text = from_cps(&t);
+        let g = serde_json::from_str::<GenericPurl<String>>(&text).is_err();
+        ctx.check("C16", "non-string JSON value is refused", "String", g, &json!({"ok": false}), &json!(text));
+        #[cfg(feature = "pt")]
+        {
+            let p = serde_json::from_str::<purl::Purl>(&text).is_err();
+            ctx.check("C16", "non-string JSON value is refused", "Purl", p, &json!({"ok": false}), &json!(text));
+        }
+    }
+}
+
 #[derive(Default, Clone)]
 pub struct Opts {
     pub serde: bool,
@@ -1152,10 +1294,15 @@ pub fn run_case(ctx: &mut Ctx, case: &Value, opts: &Opts) {
         "qseq" => run_qseq(ctx, case),
         "ckop" => run_ckop(ctx, case),
         "shape" => run_shape(ctx, case),
+        "pair" => run_pair(ctx, case),
+        #[cfg(feature = "sd")]
+        "serde_ns" => run_serde_ns(ctx, case),
         #[cfg(feature = "pt")]
         "tlookup" => run_tlookup(ctx, case),
         #[cfg(feature = "pt")]
         "comb" => run_comb(ctx, case),
+        // kinds that need an optional feature this build does not have
+        "tlookup" | "comb" | "serde_ns" => ctx.count("skipped_kind_needs_feature"),
         other => {
             eprintln!("unknown case kind {:?} at line {}", other, ctx.line);
             std::process::exit(2);
